@@ -241,7 +241,36 @@ fn fields_lane(ctx: &mut Ctx, _idx: u64) {
         let na = r.range(1, 3);
         model.push((0..na).map(|_| (r.below(3), OPS[r.below(6)], r.below(9))).collect());
     }
-    let text = model.iter().map(|e| e.iter().map(|(p, o, q)| rel_text(PKGS[*p], *o, *q)).collect::<Vec<_>>().join(" | ")).collect::<Vec<_>>().join(", ");
+    // one field in three is written in a free layout (a folded field: blanks, tabs and line breaks between and
+    // inside the parts, none where none is needed): the answer depends on the content only
+    let text = if r.chance(1, 3) {
+        let mut t = String::new();
+        for (i, e) in model.iter().enumerate() {
+            if i > 0 {
+                t.push_str(*r.pick(&[", ", ",", ",\n ", " ,\t"]));
+            }
+            for (j, (p, o, q)) in e.iter().enumerate() {
+                if j > 0 {
+                    t.push_str(*r.pick(&[" | ", "|", "\n | ", " |\n "]));
+                }
+                t.push_str(PKGS[*p]);
+                if let Some(o) = o {
+                    t.push_str(*r.pick(&[" ", "", "  ", "\n "]));
+                    t.push('(');
+                    t.push_str(*r.pick(&["", " "]));
+                    t.push_str(o);
+                    t.push_str(*r.pick(&[" ", "", "\t", "\n ", "  "]));
+                    t.push_str(LADDER[*q]);
+                    t.push_str(*r.pick(&["", " ", "\n "]));
+                    t.push(')');
+                }
+            }
+        }
+        ctx.count("free-layout");
+        t
+    } else {
+        model.iter().map(|e| e.iter().map(|(p, o, q)| rel_text(PKGS[*p], *o, *q)).collect::<Vec<_>>().join(" | ")).collect::<Vec<_>>().join(", ")
+    };
     // all 4^3 assignments: absent / a version below, equal to, above a pivot taken from the field
     let pivot = model[0][0].2.clamp(1, 7);
     let choices = [None, Some(pivot - 1), Some(pivot), Some(pivot + 1)];
